@@ -28,6 +28,10 @@ def cases(tier, rng, dist):
                         for G in (None, 0, N, N // 2):
                             if tier == "quick" and N > 5 and (N + n + x + len(cl) + len(alt) + (G or 0)) % 4: continue
                             yield {"N": N, "n": n, "x": x, "cl": cl, "alt": alt, "G": G}
+    # populations of a thousand and more (exact inversion over every G by big-integer tails)
+    for _ in range(4 if tier == "quick" else 30):
+        N = rng.choice([1000, 1500, 2500]); n = rng.randint(5, 40); x = rng.choice([0, n, rng.randint(0, n), rng.randint(0, n)])
+        yield {"N": N, "n": n, "x": x, "cl": rng.choice(CLS[2:]), "alt": rng.choice(list(CALT)), "G": rng.choice([None, 0, N, N // 3])}
     for _ in range(200 if tier == "quick" else 1500):
         N = rng.randint(10, 40 if tier == "quick" else 200); n = rng.randint(1, N); x = rng.randint(0, n)
         yield {"N": N, "n": n, "x": x, "cl": rng.choice(CLS), "alt": rng.choice(list(CALT)), "G": rng.choice([None, None, 0, N, rng.randint(0, N)])}
